@@ -222,6 +222,33 @@ func (m *pkMon) check(op, res string, cur *pkSnap) {
 		m.violate(prop+"/hook/"+kind+"-failed", fmt.Sprintf("%s: %v", res, m.h.lastErr))
 	}
 
+	// ---- C04: a pending packet stays stored and pending (same key, same contents up to the beneficiary
+	// rewrite of a fulfilment) through every op except its own accepted finalization and a fork in range
+	for i := range prev.Packets {
+		q := &prev.Packets[i]
+		if !q.Pending {
+			continue
+		}
+		n := cur.packetByKey(q.Key)
+		if n != nil && n.Pending && n.Amount.Equal(q.Amount) && n.Denom == q.Denom && n.Unescrow == q.Unescrow && n.AckErr == q.AckErr &&
+			n.Type == q.Type && n.Chan == q.Chan && n.Seq == q.Seq && n.PH == q.PH && n.Ra == q.Ra && n.ErrText == q.ErrText {
+			continue
+		}
+		if (kind == "fin" || kind == "finkey") && res == "ok" {
+			if f := cur.packetByPend(q.PendKey); f != nil && !f.Pending {
+				continue // finalized by this message (checked below)
+			}
+		}
+		if kind == "fork" && res == "ok" && q.Ra == idxTok(f[1]) && q.PH > atou(kv["h"]) && q.PH < ^uint64(0) {
+			continue
+		}
+		what := "gone"
+		if n != nil {
+			what = "changed"
+		}
+		m.violate("C04/pending_retrievable/pending-packet-vanished", fmt.Sprintf("pending %s %s after `%s` -> %s", q.Name, what, op, res))
+	}
+
 	// ---- C04: status flips and immediate releases ------------------------------------------
 	for i := range cur.Packets {
 		p := &cur.Packets[i]
